@@ -342,10 +342,6 @@ func (e *Engine) verifyFunc(p *packages.Package, fc *FuncContract, onlyProps map
 	}
 	v.runCase(p, fc, decl, body, lit, onlyProps, all, "cover")
 	for k, c := range all {
-		isLen := c.Kind == "bin" && c.Op == "==" && c.X.Kind == "call" && c.X.X.Kind == "ident" && c.X.X.Name == "len" && len(c.X.Args) == 1 && c.X.Args[0].Kind == "ident"
-		if !isLen && (c.Kind != "bin" || c.Op != "==" || c.X.Kind != "ident") {
-			unsupported("cases: expected param == constant or len(param) == constant, got %s", c)
-		}
 		v.runCase(p, fc, decl, body, lit, onlyProps, []*CExpr{c}, fmt.Sprintf("case%d", k+1))
 	}
 	return v
@@ -359,11 +355,17 @@ func (v *Verifier) runCase(p *packages.Package, fc *FuncContract, decl *ast.Func
 	v.results = nil
 	override := map[string]*CExpr{}
 	lenOverride := map[string]*CExpr{}
+	var caseCond *CExpr // general case: an arbitrary condition assumed after the precondition
 	if caseLabel != "" && caseLabel != "cover" {
-		if caseExprs[0].X.Kind == "call" {
-			lenOverride[caseExprs[0].X.Args[0].Name] = caseExprs[0].Y
-		} else {
-			override[caseExprs[0].X.Name] = caseExprs[0].Y
+		c := caseExprs[0]
+		isLen := c.Kind == "bin" && c.Op == "==" && c.X.Kind == "call" && c.X.X.Kind == "ident" && c.X.X.Name == "len" && len(c.X.Args) == 1 && c.X.Args[0].Kind == "ident"
+		switch {
+		case isLen:
+			lenOverride[c.X.Args[0].Name] = c.Y
+		case c.Kind == "bin" && c.Op == "==" && c.X.Kind == "ident" && isConstCExpr(c.Y):
+			override[c.X.Name] = c.Y
+		default:
+			caseCond = c
 		}
 	}
 	_ = e
@@ -498,6 +500,9 @@ func (v *Verifier) runCase(p *packages.Package, fc *FuncContract, decl *ast.Func
 			v.applyUse(s, env.at(s, s), c, decl.Pos())
 		}
 	}
+	if caseCond != nil {
+		s.assume(env.at(s, s).trBool(caseCond))
+	}
 	if caseLabel == "cover" {
 		var cs []*Term
 		for _, c := range caseExprs {
@@ -532,7 +537,7 @@ func (v *Verifier) runCase(p *packages.Package, fc *FuncContract, decl *ast.Func
 		}
 		st := f.St
 		nret++
-		v.obligs = append(v.obligs, &Oblig{Name: fmt.Sprintf("%s#vacuity:path%d%s", v.fnName, nret, v.caseSuffix()), Class: "vacuity-path", Func: v.fnName, PC: append([]*Term(nil), st.pc...), Goal: TFalse, MustSat: true, Desc: "return path is feasible", Mode: v.mode, Props: fc.Props})
+		v.obligs = append(v.obligs, &Oblig{Name: fmt.Sprintf("%s#vacuity:path%d%s", v.fnName, nret, v.caseSuffix()), Class: "vacuity-path", Func: v.fnName, PC: append([]*Term(nil), st.pc...), Goal: TFalse, MustSat: true, Desc: "return path is feasible", Mode: v.mode, Props: fc.Props, Pos: v.pos(f.Pos)})
 		// deferred calls
 		if len(st.defers) > 0 {
 			// results must be visible to deferred closures through named results only: not modelled
@@ -888,4 +893,15 @@ func (v *Verifier) evalMapTable(s *State, o *types.Var, init ast.Expr, ref *Term
 	s.assume(Eq(Select(hh, ref), has))
 	s.assume(Eq(Select(hv, ref), vals))
 	v.assumed["package-level map "+o.Pkg().Name()+"."+o.Name()+" holds its initial literal (never modified after init)"] = true
+}
+
+// isConstCExpr: a literal or a (qualified) constant name.
+func isConstCExpr(c *CExpr) bool {
+	switch c.Kind {
+	case "num", "ident", "sel", "str":
+		return true
+	case "un":
+		return isConstCExpr(c.X)
+	}
+	return false
 }
